@@ -43,6 +43,8 @@ static Feature FEAT(Tag &t, size_t i) { if (t.featureCount() <= i) throw NotEnab
 static Feature FEAT(MultiTag &t, size_t i) { if (t.featureCount() <= i) throw NotEnabled(); return t.getFeature(i); }
 static void need(bool c) { if (!c) throw NotEnabled(); }
 
+obs::Pool created;
+
 typedef std::vector<std::string> VS;
 
 std::vector<Op> entity_alphabet(int level) {
@@ -246,6 +248,32 @@ std::vector<Op> entity_alphabet(int level) {
     add(2, "b1.createTag(<uuid-shaped name>)", [=](File &f) { B(f, b1).createTag(uu, "t", {1.0}); });
     add(2, "b1.createGroup(<uuid-shaped name>)", [=](File &f) { B(f, b1).createGroup(uu, "t"); });
     add(2, "b1.createDataArray(<uuid-shaped name>)", [=](File &f) { B(f, b1).createDataArray(uu, "t", DataType::Double, NDSize({2})); });
+
+    // ---------------- chained: the handle RETURNED BY create* is used for the follow-up calls (appended last) ----------------
+    // (a creating constructor and an opening constructor of the back end are different code: every other operation of this
+    //  alphabet fetches its entity afresh and therefore only ever exercises the opening one)
+    add(1, "b1.createGroup(gc)+members via the creation handle", [=](File &f) { Block b = B(f, b1); need(!b.hasGroup("gc"));
+        need(b.hasDataArray("a1") || b.hasDataFrame("f1") || b.hasTag("t1") || b.hasMultiTag("m1"));
+        Group g = b.createGroup("gc", "t");
+        if (b.hasDataArray("a1")) g.addDataArray(b.getDataArray("a1")); if (b.hasDataFrame("f1")) g.addDataFrame(b.getDataFrame("f1"));
+        if (b.hasTag("t1")) g.addTag(b.getTag("t1")); if (b.hasMultiTag("m1")) g.addMultiTag(b.getMultiTag("m1")); g.definition("dg"); created.groups[g.id()] = g; });
+    add(1, "b1.createTag(tc)+reference,feature,source,metadata via the creation handle", [=](File &f) { Block b = B(f, b1); need(!b.hasTag("tc")); DataArray a = A(f, b1, "a1");
+        Tag t = b.createTag("tc", "t", {0.5}); t.extent({1.0}); t.addReference(a); t.createFeature(a, LinkType::Untagged); t.definition("dt");
+        if (b.hasSource("s1")) t.addSource(b.getSource("s1")); if (f.hasSection("x1")) t.metadata(f.getSection("x1")); created.tags[t.id()] = t; });
+    add(1, "b1.createMultiTag(mc,a1)+extents,reference,feature via the creation handle", [=](File &f) { Block b = B(f, b1); need(!b.hasMultiTag("mc")); DataArray a = A(f, b1, "a1");
+        MultiTag m = b.createMultiTag("mc", "t", a); m.extents(a); m.addReference(a); m.createFeature(a, LinkType::Untagged);
+        if (b.hasSource("s1")) m.addSource(b.getSource("s1")); created.mtags[m.id()] = m; });
+    add(1, "createSection(xc)+property,child,link via the creation handle", [=](File &f) { need(!f.hasSection("xc"));
+        Section s = f.createSection("xc", "t"); s.createProperty("pc", Variant(2.5)).unit("mV"); s.createSection("xcc", "u").createProperty("pcc", Variant("v")); s.repository("r");
+        if (f.hasSection("x1")) s.link(f.getSection("x1")); created.sections[s.id()] = s; });
+    add(1, "b1.createSource(sc)+child,definition via the creation handle", [=](File &f) { Block b = B(f, b1); need(!b.hasSource("sc"));
+        Source s = b.createSource("sc", "t"); s.definition("ds"); s.createSource("scc", "u").definition("dss"); if (f.hasSection("x1")) s.metadata(f.getSection("x1")); created.sources[s.id()] = s; });
+    add(1, "b1.createDataArray(ac)+dimension,unit,source,metadata via the creation handle", [=](File &f) { Block b = B(f, b1); need(!b.hasDataArray("ac"));
+        DataArray a = b.createDataArray("ac", "t", DataType::Double, NDSize({2})); a.setData(std::vector<double>{0.25, 0.75}); a.appendSampledDimension(0.5, "lbl", "ms", 1.0); a.unit("mV"); a.label("la");
+        a.polynomCoefficients({0.0, 2.0}); if (b.hasSource("s1")) a.addSource(b.getSource("s1")); if (f.hasSection("x1")) a.metadata(f.getSection("x1")); created.arrays[a.id()] = a; });
+    add(2, "createBlock(bc)+array,tag,group via the creation handle", [=](File &f) { need(!f.hasBlock("bc"));
+        Block b = f.createBlock("bc", "t"); DataArray a = b.createDataArray("a1", "t", DataType::Double, NDSize({2})); Tag t = b.createTag("t1", "t", {0.0}); t.addReference(a);
+        Group g = b.createGroup("g1", "t"); g.addDataArray(a); g.addTag(t); b.definition("db"); created.blocks[b.id()] = b; created.groups[g.id()] = g; created.tags[t.id()] = t; created.arrays[a.id()] = a; });
     return v;
 }
 
